@@ -59,6 +59,24 @@ func runC09(c *runCfg) error {
 		}
 		emitSession(c, lockCase(id, class, cfg, stdStartup, msgs))
 		id++
+		if len(rfs) >= 2 {
+			// several portals of the statement alive at once, each with its own result formats:
+			// each bound and described (the last one also with parameter formats), then all executed
+			pm := [][]byte{mParse([]byte("s"), []byte("q"), 0)}
+			for k, rf := range rfs {
+				var pf []int
+				if k == len(rfs)-1 {
+					pf = []int{1, 0, 1, 0, 1, 0}[:len(cols)%7]
+				}
+				pm = append(pm, mBind([]byte(fmt.Sprintf("p%d", k)), []byte("s"), pf, nil, rf), mDescribe('P', []byte(fmt.Sprintf("p%d", k))))
+			}
+			for k := range rfs {
+				pm = append(pm, mExecute([]byte(fmt.Sprintf("p%d", k)), 0))
+			}
+			pm = append(pm, mSync())
+			emitSession(c, lockCase(id, class+"_portals", cfg, stdStartup, pm))
+			id++
+		}
 	}
 	// every type: every listed value and each NULL kind, in both formats
 	for _, o := range types {
